@@ -95,3 +95,25 @@ class BC__visit_ternaryop(Contract):
         if n == 'Fma':
             return dict(rounded_call(result, n), args=ordered)
         return {'range': plain_call(result, '__fpy_range') and ordered}
+
+
+class Interp__func_ctx(Contract):
+    target = 'fpy2.interpret.interpreter:Interpreter._func_ctx'
+    params = {'self': 'BytecodeInterpreter', 'func': 'FuncDef', 'ctx': 'IEEEContext | None'}
+    overrides = {'func._meta.ctx': 'MPFloatContext | None'}
+    returns = 'Any'
+    properties = ['C04']
+    note = ('P4 (derived-semantics.rst "Call"): the body runs under the callee\'s declared context if it has one, else the '
+            'caller\'s; a call from Python with no context runs under IEEE double (interpreter._PY_CTX).  Declared FPCore '
+            'contexts (FPCoreContext.to_context) are not covered.')
+
+    def post(self, func, ctx, result):
+        d = func.meta.ctx
+        return {
+            'declared_wins': same_obj(result, d) if d is not None else True,
+            'else_callers': same_obj(result, ctx) if (d is None and ctx is not None) else True,
+            'else_double': is_binary64_rne(result) if (d is None and ctx is None) else True,
+        }
+
+    def raises(self, func, ctx):
+        return {}
